@@ -90,6 +90,13 @@ def gen_case(rng, family='any'):
                 w.append([a, (rng.choice([0.0, 1.0, rng.uniform(0, 1)]) if lo else rng.choice([0.0, 1.0, -0.7, rng.uniform(-1, 1)]))])
         if rng.random() < 0.1 and nsym < 4:
             w.append(['EQ:' + SYMS[nsym], 0.5 if lo else -0.5])       # alpha key outside the universe (it has no data)
+        near_unit = False
+        if lo and len(w) >= 2 and rng.random() < 0.1:
+            # raw weights summing to a hair away from 1 (normalisation is then almost, but not exactly, the identity)
+            raw = [rng.choice([1.0, 2.0, 3.0, rng.uniform(0.2, 1)]) for _ in w]
+            eps = rng.choice([1e-6, -1e-6, 5e-6, -5e-6, 9e-6, -9e-6])
+            w = [[a_, r_ / sum(raw) * (1.0 + eps)] for (a_, _), r_ in zip(w, raw)]
+            near_unit = True
         alpha = {'fixed': w}
     elif family == 'dynamic':
         dates = []
@@ -159,7 +166,7 @@ def gen_case(rng, family='any'):
         pass
     case = dict(start=start, end=end, burn=burn, rebalance=reb, weekday=rng.choice(['MON', 'TUE', 'WED', 'THU', 'FRI']),
                 long_only=lo, param=(rng.choice([0.0, 0.05, 0.3]) if lo else rng.choice([0.5, 1.0, 2.0])),
-                fee=gen_fee(rng), cash=rng.choice([1e5, 1e6, 250000.0]), universe=uni, alpha=alpha, signals=signals,
+                fee=gen_fee(rng), cash=(rng.choice([1e8, 1e9]) if family == 'fixed' and locals().get('near_unit') else rng.choice([1e5, 1e6, 250000.0])), universe=uni, alpha=alpha, signals=signals,
                 adjust=rng.random() < 0.7, market=market, family=family)
     if reb != 'buy_and_hold' and rng.random() < 0.08:
         case['start_us'] = rng.choice([1, 250000, 999999])      # a start carrying microseconds: the session is that of the whole second
